@@ -304,6 +304,12 @@ func c09Check(c *C09Case) (ds []ev.Discrepancy, stats map[string]int) {
 		}
 		// ---- rename: applying the edits must give exactly the texts with every occurrence replaced
 		newName := map[string]string{"account": "renamed:acct", "commodity": "ZZZ", "payee": "renamed payee"}[pr.kind]
+		newText := newName
+		if pr.kind == "commodity" {
+			// a new name that is not read back as itself without quotes is written in quotes
+			newName = []string{"ZZZ", "EUR2", "my coin"}[(len(pr.name)+len(pr.occs))%3]
+			newText = m.SymText(newName)
+		}
 		var we *protocol.WorkspaceEdit
 		var rerr error
 		if perr := lspx.Guard(func() {
@@ -317,7 +323,7 @@ func c09Check(c *C09Case) (ds []ev.Discrepancy, stats map[string]int) {
 			var want []refclient.Edit
 			for _, o := range pr.occs {
 				if o.File == fi {
-					want = append(want, refclient.Edit{Range: refclient.Range{Start: refclient.Pos{Line: o.Line, Char: o.S}, End: refclient.Pos{Line: o.Line, Char: o.E}}, Text: newName})
+					want = append(want, refclient.Edit{Range: refclient.Range{Start: refclient.Pos{Line: o.Line, Char: o.S}, End: refclient.Pos{Line: o.Line, Char: o.E}}, Text: newText})
 				}
 			}
 			base := refclient.New(texts[fi].Text)
